@@ -258,10 +258,13 @@ def ufunc_class_factory(name, nargin, nargout, docstring):
             else:
                 return getattr(x[0].ufuncs, name)(*x[1:])
         else:
+            # For 2 outputs, a tuple of the parts of `out` is returned by
+            # the ufunc, hence we do not return its result
             if nargin == 1:
-                return getattr(x.ufuncs, name)(out=out)
+                getattr(x.ufuncs, name)(out=out)
             else:
-                return getattr(x[0].ufuncs, name)(*x[1:], out=out)
+                getattr(x[0].ufuncs, name)(*x[1:], out=out)
+            return out
 
     def __repr__(self):
         """Return ``repr(self)``."""
